@@ -48,3 +48,43 @@ pub fn par<T: Sync>(items: &[T], f: impl Fn(&T, &mut Report) + Sync) -> Report {
     });
     total.into_inner().unwrap()
 }
+
+/// `input` embedded in a longer text (`PAD_BEFORE` in front, `PAD_AFTER` behind: text that the nodes under test
+/// would happily match), leaked once per distinct input: a node run on `Span::new(padded, PAD_BEFORE.len(),
+/// PAD_BEFORE.len() + input.len())` must behave exactly as on `input` alone.
+pub const PAD_BEFORE: &str = "b ";
+pub const PAD_AFTER: &str = "abab a";
+pub fn padded_of(input: &str) -> &'static str {
+    static MAP: Mutex<Option<std::collections::HashMap<String, &'static str>>> = Mutex::new(None);
+    let mut g = MAP.lock().unwrap();
+    let m = g.get_or_insert_with(Default::default);
+    if let Some(x) = m.get(input) {
+        return x;
+    }
+    let leaked: &'static str = Box::leak(format!("{}{}{}", PAD_BEFORE, input, PAD_AFTER).into_boxed_str());
+    m.insert(input.to_string(), leaked);
+    leaked
+}
+
+/// Characters chosen by their encoding rather than their length class: every 2-byte character, strides through the
+/// 3- and 4-byte planes (thorough: every 3-byte character), and the characters whose UTF-8 bytes hit the extremes
+/// 0x80 / 0xBF of the continuation range or the first / last lead bytes.
+pub fn encoding_sweep(thorough: bool) -> Vec<char> {
+    let mut v: Vec<char> = vec![];
+    for cp in 0x7fu32..0x800 {
+        v.extend(char::from_u32(cp));
+    }
+    let (s3, s4) = if thorough { (1, 17) } else { (37, 1009) };
+    for cp in (0x800u32..0x10000).step_by(s3) {
+        v.extend(char::from_u32(cp));
+    }
+    for cp in (0x10000u32..0x110000).step_by(s4) {
+        v.extend(char::from_u32(cp));
+    }
+    for cp in [0x800u32, 0xfff, 0x1000, 0xd7ff, 0xe000, 0xfeff, 0xfffd, 0xffff, 0x10000, 0x1f4bf, 0x3ffff, 0x40000, 0xfffff, 0x100000, 0x10ffff, 0x2028, 0x2029, 0x85, 0x0b, 0x0c] {
+        v.extend(char::from_u32(cp));
+    }
+    v.sort();
+    v.dedup();
+    v
+}
